@@ -24,7 +24,7 @@ RULE = ("seeded operation sequences (one derived PRNG value per case) over every
         "get_current/get_history/get_last_history, compute_logw_and_logz, compute_results, to_dict, from_dict, update_from_dict, save_state/load_state through SimFS) and over "
         "Sampler.sample()/results()/posterior()/state.to_dict() on live short runs, plus scribble(handle); after each operation all stored data are compared bitwise with a reference "
         "store; evaluations = operations executed; distinct = distinct (accessor, scribbled) pairs and operation bigrams; non-trivial = the example scribbled on at least one handle")
-ASSUMPTIONS = ["arrays passed with copy=False and arrays passed into from_dict/update_from_dict are donated, hence never scribbled", "history batches keep one shape per key (ragged histories are outside this property)"]
+ASSUMPTIONS = ["arrays passed with copy=False and arrays passed into from_dict/update_from_dict are donated, hence never scribbled", "histories whose batches differ in size (as after a resume with another n_particles) are included; an accessor that cannot stack them may refuse with ValueError, what it returns otherwise is judged like any other result"]
 
 N, D = 3, 2
 ARR_KEYS = ("u", "x", "logl", "blobs", "assignments")
@@ -40,14 +40,14 @@ class Violation(Exception):
         self.detail = detail
 
 
-def make_value(key, vseed):
+def make_value(key, vseed, n=N):
     r = np.random.RandomState(vseed % (2**31))
     if key in ("u", "x"):
-        return r.random_sample((N, D))
+        return r.random_sample((n, D))
     if key in ("logl", "blobs"):
-        return r.normal(size=N)
+        return r.normal(size=n)
     if key == "assignments":
-        return r.randint(0, 3, size=N)
+        return r.randint(0, 3, size=n)
     if key == "beta":
         return float(r.random_sample())
     if key in ("calls", "iter", "steps"):
@@ -58,7 +58,10 @@ def make_value(key, vseed):
 def arrays_in(obj, path=""):
     """All ndarray objects nested in dicts/lists/tuples, with a path."""
     out = []
-    if isinstance(obj, np.ndarray):
+    if isinstance(obj, np.ndarray) and obj.dtype == object:
+        for i, v in enumerate(obj.ravel()):  # an object array is a container: what the caller can write into are its elements
+            out += arrays_in(v, f"{path}[{i}]")
+    elif isinstance(obj, np.ndarray):
         out.append((path, obj))
     elif isinstance(obj, dict):
         for k in sorted(obj, key=str):  # library dict order follows PYTHONHASHSEED (frozenset of keys)
@@ -157,6 +160,17 @@ class Exec:
             self.cur[k] = copy.deepcopy(v)
         self.last_scribbled = None
 
+    def op_update_n(self, vseed, n):
+        """A whole particle set of another size (the batch size changed, as after a resume with another n_particles), then commit."""
+        d = {k: make_value(k, vseed + i, n) for i, k in enumerate(ALL_KEYS)}
+        self.sm.update_current(d, copy=True)
+        for k, v in d.items():
+            self.cur[k] = copy.deepcopy(v)
+        self.last_scribbled = None
+
+    def _ragged(self, key):
+        return len({np.shape(e) for e in self.hist[key]}) > 1
+
     def op_commit(self, strict):
         missing = [k for k in ("beta", "logl") if self.cur[k] is None]
         if strict and missing:
@@ -189,6 +203,14 @@ class Exec:
                 return
             got = self.sm.get_history(key, flat=True)
             self._expect("get_history", got, np.concatenate(lst), f"({key!r}, flat=True)")
+        elif self._ragged(key):
+            # batches of different sizes cannot be stacked: the accessor may refuse (it does, with ValueError) or return a container of batches;
+            # whatever it returns must hold the stored values and is handed to the caller like any other result
+            try:
+                got = self.sm.get_history(key)
+            except ValueError:
+                return
+            self._expect("get_history", [np.asarray(e) for e in got], [np.asarray(e) for e in lst], f"({key!r}) [batches of unequal size]")
         else:
             got = self.sm.get_history(key)
             self._expect("get_history", got, np.array(lst), f"({key!r})")
@@ -213,6 +235,21 @@ class Exec:
         if not self.mis_ready():
             return
         shapes_ok = all(len(self.hist[k]) in (0, len(self.hist["beta"])) for k in HIST_KEYS)
+        if any(self._ragged(k) for k in HIST_KEYS):
+            try:
+                got = self.sm.compute_results()
+            except ValueError:
+                return
+            if any(k not in got for k in HIST_KEYS):
+                # observed on the pinned tree: the refusal above leaves a partly filled cache behind, which the next call returns without raising;
+                # an incomplete result is not an aliasing matter - what it does contain is still handed to the caller below
+                self.pairs.add(("compute_results", "partial_after_refusal"))
+                self._hand("compute_results", got)
+                return
+            for k in HIST_KEYS:
+                self._expect("compute_results", [np.asarray(e) for e in got[k]], [np.asarray(e) for e in self.hist[k]], f"()[{k!r}] [batches of unequal size]")
+            self._hand("compute_results", got)
+            return
         got = self.sm.compute_results()
         want = {k: np.array(self.hist[k]) for k in HIST_KEYS}
         b = [(float(self.hist["beta"][t]), float(self.hist["logz"][t]), self.hist["logl"][t]) for t in range(len(self.hist["beta"]))]
@@ -412,6 +449,7 @@ def gen_ops(rnd, mode, n_ops):
             lambda: ["update", list(ALL_KEYS), rnd.randrange(10**6), True],
             lambda: ["commit", False],
             lambda: ["commit", rnd.random() < 0.5],
+            lambda: ["update_n", rnd.randrange(10**6), rnd.choice([2, 5])],
             lambda: ["from_dict"],
             lambda: ["update_from_dict", rnd.sample(ALL_KEYS, rnd.randrange(1, 5)), rnd.randrange(10**6)],
             lambda: ["save_load"],
